@@ -68,9 +68,26 @@ def func_work(item):
     part = report.Partial()
     cls = pathlib.PurePosixPath if flavour == "posix" else pathlib.PureWindowsPath
     base_path = cls(base)
-    user = types.SimpleNamespace(base_path=base_path)
+    user = aioftp.User(base_path=".")
+    user.base_path = base_path
+    from vf.world import World, Running
+    w = World(patch=False)
+    try:
+        with Running(w.loop):
+            _func_loop(part, aioftp, flavour, base, base_path, user, strings)
+    finally:
+        w.close()
+    part.transitions = part.evaluations
+    part.states.add(report.fp([flavour, base, len(strings), strings[:1]]))
+    part.nontrivial.add(report.fp([flavour, base, len(strings), strings[:1]]))
+    part.sample({"flavour": flavour, "base": base, "paths": strings[:3]}, limit=1)
+    return part
+
+
+def _func_loop(part, aioftp, flavour, base, base_path, user, strings):
     for cwd in cwds():
-        conn = types.SimpleNamespace(current_directory=pathlib.PurePosixPath(cwd), user=user)
+        # a real Connection object, reused for all path strings of this cwd like a live session would
+        conn = aioftp.Connection(current_directory=pathlib.PurePosixPath(cwd), user=user)
         for s in strings:
             real, virt = aioftp.Server.get_paths(conn, s)
             part.evaluations += 1
@@ -93,11 +110,6 @@ def func_work(item):
                 part.violation({"kind": problem, "flavour": flavour},
                                {"base": base, "cwd": cwd, "path": s, "real": str(real), "virtual": vs, "resolver": want},
                                replay={"func": [flavour, base, cwd, s]})
-    part.transitions = part.evaluations
-    part.states.add(report.fp([flavour, base, len(strings), strings[:1]]))
-    part.nontrivial.add(report.fp([flavour, base, len(strings), strings[:1]]))
-    part.sample({"flavour": flavour, "base": base, "paths": strings[:3]}, limit=1)
-    return part
 
 
 def func_items(tier):
@@ -189,6 +201,68 @@ def wire_case(item):
     return part
 
 
+# -- re-login: state of the previous user must not let the next one operate outside its own base --------------
+RL_TREE = {"A": {"f": b"fileA", "d": {"g": b"gA"}}, "B": {"f": b"fileB", "d": {"g": b"gB"}}}
+RL_SET = ["RNFR f", "CWD d", "REST 2", "RETR f", "MLST f", "DELE nope", "STOR tmp", "LIST", "PWD", "RNFR d/g", "MKD d/n"]
+RL_GET = ["RNTO moved", "RETR f", "PWD", "MLST f", "DELE f", "STOR new", "LIST", "CWD d", "MKD n2", "RMD d", "RETR g",
+          "APPE f", "RNFR f", "MLSD"]
+
+
+def relogin_case(item):
+    first, sets, gets = item
+    part = report.Partial()
+    from vf.rig import Rig
+    for x in sets:
+        for y in gets:
+            spy = backends.SpyControl()
+
+            def users(a, base):
+                return [a.User("alice", None, base_path="/base/A"), a.User("bob", "pw", base_path="/base/B")]
+
+            rig = Rig(backend="memory", tree=RL_TREE, users=users, spy=spy, base="/base", server_kwargs={"block_size": 4})
+            try:
+                me, other = ("alice", "bob") if first == "alice" else ("bob", "alice")
+                hist = ["@connect", "USER " + me] + (["PASS pw"] if me == "bob" else []) + ["EPSV", "@data", x]
+                if x.startswith("STOR"):
+                    hist += ["@dsend zz", "@dclose"]
+                hist += ["USER " + other] + (["PASS pw"] if other == "bob" else []) + ["EPSV", "@data"]
+                for e in hist:
+                    rig.ev(0, e)
+                mark = len(spy.calls)
+                own = "/base/A" if other == "alice" else "/base/B"
+                foreign = "/base/B" if other == "alice" else "/base/A"
+                before = {k: v for k, v in backends.snapshot_memory_all(rig.server).items() if k.startswith(foreign)}
+                r = rig.ev(0, y)
+                if y.startswith(("STOR", "APPE")) and r and r[-1][0][:1] == "1":
+                    rig.ev(0, "@dsend yy")
+                    rig.ev(0, "@dclose")
+                problems = []
+                for op, pth in spy.calls[mark:]:
+                    for q in (pth or "").split(" -> "):
+                        if q and not (q == own or q.startswith(own + "/")):
+                            problems.append({"kind": "backend-path-outside-base-after-relogin", "op": op, "path": q})
+                after = {k: v for k, v in backends.snapshot_memory_all(rig.server).items() if k.startswith(foreign)}
+                if after != before:
+                    problems.append({"kind": "previous-users-tree-changed-after-relogin"})
+                s0 = rig.sessions[0]
+                if y.startswith("RETR") and s0.data is not None and s0.data.received and \
+                        s0.data.received not in (RL_TREE[own[-1]]["f"], RL_TREE[own[-1]]["d"]["g"]):
+                    problems.append({"kind": "foreign-content-served-after-relogin", "data": s0.data.received.decode()})
+                part.evaluations += 1
+                part.traces += 1
+                part.transitions += len(hist) + 1
+                k = report.fp(["relogin", first, x, y])
+                part.states.add(k)
+                part.nontrivial.add(k)
+                for p in problems[:1]:
+                    part.violation({"kind": p["kind"], "set": x.split(" ")[0], "get": y.split(" ")[0]},
+                                   {"problem": p, "history": hist + [y]}, replay={"relogin": [first, x, y]})
+            finally:
+                rig.close()
+    part.sample({"relogin": first, "state_setting": sets[:3], "then": gets[:3]}, limit=1)
+    return part
+
+
 def wire_items(tier):
     items = []
     s2 = wire_strings(2)
@@ -203,12 +277,15 @@ def wire_items(tier):
 
 def run(tier, seed, t0):
     fitems, nstrings = func_items(tier)
-    parts = report.pmap(func_work, fitems) + report.pmap(wire_case, wire_items(tier))
+    ritems = [(first, [x], RL_GET) for first in ("alice", "bob") for x in RL_SET]
+    parts = report.pmap(func_work, fitems) + report.pmap(wire_case, wire_items(tier)) + report.pmap(relogin_case, ritems)
     part = report.merge_all(parts)
     bounds = {"function": {"segments": SEGS, "prefixes": PREFIXES, "max_segments": 3 if tier == "quick" else 4,
                            "path_strings": nstrings, "cwds": len(cwds()), "bases": BASES},
               "wire": {"segments": WSEGS, "verbs": WVERBS, "cwd_histories": WCWD_HISTS,
-                       "max_segments": "2 (3 for CWD/STOR/RETR)" if tier == "quick" else 3}}
+                       "max_segments": "2 (3 for CWD/STOR/RETR)" if tier == "quick" else 3},
+              "relogin": {"users": "alice (base /base/A), bob (base /base/B, password)", "state_setting": RL_SET,
+                          "after_relogin": RL_GET}}
     return report.finish(
         PID, tier, seed, "model_checking", part, t0,
         rule="function level: exhaustive (base, cwd, path string) enumeration of Server.get_paths against an independent "
@@ -223,7 +300,10 @@ def run(tier, seed, t0):
 def replay(path):
     data = json.loads(open(path).read())
     rp = data["replay"]
-    if "func" in rp:
+    if "relogin" in rp:
+        first, x, y = rp["relogin"]
+        part = relogin_case((first, [x], [y]))
+    elif "func" in rp:
         flavour, base, cwd, s = rp["func"]
         part = func_work((flavour, base, [s]))
         part.violations = [v for v in part.violations if v["detail"]["cwd"] == cwd]
